@@ -402,4 +402,431 @@ theorem leastSquares_bounds (B : BoxProblem Q lo hi) (x0 : List ℝ) (hx0 : x0.l
 
 end bounds
 
+/-! ### monotonicity: accepted steps never increase the objective -/
+
+/-- Hypotheses of the monotonicity theorems: `c1 ≥ 0` and a box-QP oracle that returns descent directions
+    (`g·dx ≤ 0`; true of any minimiser of `½dxᵀHdx + g·dx` over a set containing 0 when `H` is PSD). -/
+structure DescentProblem (Q : Problem ℝ) : Prop where
+  hc1 : 0 ≤ Q.P.c1
+  descent : ∀ H g db dx, Q.boxQP H g db = some (.ok dx) → dot g dx ≤ 0
+
+section mono
+variable {Q : Problem ℝ}
+
+def PostSM (Q : Problem ℝ) (y : ℝ) (r : SearchResult ℝ) : Prop :=
+  ∀ dx xnew rnew red mu nr calls, r = .accepted dx xnew rnew red mu nr calls →
+    Q.residual xnew = some rnew ∧ ∃ ynew, Q.norm.value rnew = some ynew ∧ ynew ≤ y ∧ red = y - ynew
+
+theorem searchStep_mono (M : DescentProblem Q) (x grad : List ℝ) (hess : Mat ℝ) (db : Option (List ℝ × List ℝ))
+    (y mu : ℝ) (nr : Nat) (calls : List (List ℝ)) (r : SearchResult ℝ)
+    (h : searchStep Q x grad hess db y mu nr calls = .inl r) : PostSM Q y r := by
+  unfold searchStep at h
+  cases hq : Q.boxQP (regularize hess mu) grad db with
+  | none => rw [hq] at h; simp only [Sum.inl.injEq] at h; subst h; intro _ _ _ _ _ _ _ h; cases h
+  | some res =>
+    rw [hq] at h
+    cases res with
+    | failed =>
+      simp only at h
+      split_ifs at h
+      simp only [Sum.inl.injEq] at h; subst h; intro _ _ _ _ _ _ _ h; cases h
+    | ok dx =>
+      simp only at h
+      cases hr : Q.residual (candidate x Q.D dx) with
+      | none => rw [hr] at h; simp only [Sum.inl.injEq] at h; subst h; intro _ _ _ _ _ _ _ h; cases h
+      | some rnew =>
+        rw [hr] at h
+        simp only at h
+        cases hv : Q.norm.value rnew with
+        | none => rw [hv] at h; simp only [Sum.inl.injEq] at h; subst h; intro _ _ _ _ _ _ _ h; cases h
+        | some ynew =>
+          rw [hv] at h
+          simp only at h
+          split_ifs at h with h1 h2
+          · simp only [Sum.inl.injEq] at h; subst h; intro _ _ _ _ _ _ _ h; cases h
+          · simp only [Sum.inl.injEq] at h; subst h
+            intro _ _ _ _ _ _ _ h
+            simp only [SearchResult.accepted.injEq] at h
+            obtain ⟨rfl, rfl, rfl, rfl, _⟩ := h
+            refine ⟨hr, ynew, hv, ?_, rfl⟩
+            have hrej : armijoReject Q.P.c1 (y - ynew) (dot grad dx) = false := by
+              simpa using h1
+            exact accept_monotone_scalar _ _ _ _ M.hc1 (M.descent _ _ _ _ hq) hrej
+
+theorem search_mono (M : DescentProblem Q) (x grad : List ℝ) (hess : Mat ℝ) (db : Option (List ℝ × List ℝ))
+    (y : ℝ) (fuel : Nat) (mu : ℝ) (nr : Nat) (calls : List (List ℝ)) :
+    PostSM Q y (search Q x grad hess db y fuel mu nr calls) := by
+  refine search_induct Q x grad hess db y (fun _ _ _ => True) (PostSM Q y) ?_ ?_ ?_ fuel mu nr calls trivial
+  · intro _ _ _ _ _ _ _ _ _ _ _ h; cases h
+  · intro mu nr calls r _ hs; exact searchStep_mono M x grad hess db y mu nr calls r hs
+  · intro _ _ _ _ _ _ _ _; trivial
+
+def InvM (Q : Problem ℝ) (y0 : ℝ) (s : State ℝ) : Prop :=
+  Q.residual s.x = some s.r ∧
+  (∀ e ∈ s.trace, e.objective ≤ y0) ∧
+  (∀ yc, Q.norm.value s.r = some yc → yc ≤ y0 ∧ ∀ e ∈ s.trace, yc ≤ e.objective) ∧
+  List.Pairwise (· ≥ ·) (s.trace.map (·.objective))
+
+def PostM (Q : Problem ℝ) (y0 : ℝ) (r : Result ℝ) : Prop :=
+  Q.residual r.x = some r.r ∧
+  (∀ e ∈ r.trace, e.objective ≤ y0) ∧
+  (∀ yf, Q.norm.value r.r = some yf → yf ≤ y0) ∧
+  List.Pairwise (· ≥ ·) (r.trace.map (·.objective))
+
+theorem pairwise_snoc (l : List (IterLog ℝ)) (e : IterLog ℝ)
+    (hp : List.Pairwise (· ≥ ·) (l.map (·.objective))) (hle : ∀ a ∈ l, e.objective ≤ a.objective) :
+    List.Pairwise (· ≥ ·) ((l ++ [e]).map (·.objective)) := by
+  rw [List.map_append, List.pairwise_append]
+  refine ⟨hp, by simp, ?_⟩
+  intro a ha b hb
+  simp only [List.map_cons, List.map_nil, List.mem_singleton] at hb
+  subst hb
+  obtain ⟨a', ha', rfl⟩ := List.mem_map.mp ha
+  exact hle a' ha'
+
+theorem finish_mono (y0 : ℝ) (s : State ℝ) (st : Status) (i : Nat) (h : InvM Q y0 s) :
+    PostM Q y0 (finish Q s st i) := by
+  obtain ⟨h1, h2, h3, h4⟩ := h
+  unfold finish
+  cases hv : Q.norm.value s.r with
+  | none => exact ⟨h1, h2, fun yf hyf => (h3 yf hyf).1, h4⟩
+  | some yf =>
+    have := h3 yf hv
+    refine ⟨h1, ?_, fun yf' hyf => (h3 yf' hyf).1, pairwise_snoc _ _ h4 this.2⟩
+    exact mem_append_single h2 this.1
+
+theorem abort_mono (y0 : ℝ) (s : State ℝ) (w : String) (i : Nat) (h : InvM Q y0 s) :
+    PostM Q y0 (abort s w i) := by
+  obtain ⟨h1, h2, h3, h4⟩ := h
+  exact ⟨h1, h2, fun yf hyf => (h3 yf hyf).1, h4⟩
+
+theorem iterStep_mono (M : DescentProblem Q) (y0 : ℝ) (i : Nat) (s : State ℝ) (h : InvM Q y0 s) :
+    (∀ r, iterStep Q i s = .inl r → PostM Q y0 r) ∧ (∀ s', iterStep Q i s = .inr s' → InvM Q y0 s') := by
+  have habort : ∀ (c : List (List ℝ)) (mu : ℝ) (nr : Nat), InvM Q y0 { s with mu := mu, nreduc := nr, calls := c } := by
+    intro c mu nr; exact h
+  unfold iterStep
+  cases hv : Q.norm.value s.r with
+  | none =>
+    exact ⟨by intro r hr; simp only [Sum.inl.injEq] at hr; subst hr; exact abort_mono y0 s _ i h,
+           by intro _ hr; cases hr⟩
+  | some y =>
+    simp only
+    cases hm : List.mapM Q.residual (fdProbes s.x (fdSteps Q.P.eps Q.bounds s.x)) with
+    | none =>
+      exact ⟨by intro r hr; simp only [Sum.inl.injEq] at hr; subst hr; exact abort_mono y0 _ _ i (habort _ s.mu s.nreduc),
+             by intro _ hr; cases hr⟩
+    | some rhs =>
+      simp only
+      cases hg : (projMat s.r rhs (fdSteps Q.P.eps Q.bounds s.x) Q.D).bind (Q.norm.gradHess s.r) with
+      | none =>
+        exact ⟨by intro r hr; simp only [Sum.inl.injEq] at hr; subst hr; exact abort_mono y0 _ _ i (habort _ s.mu s.nreduc),
+               by intro _ hr; cases hr⟩
+      | some gh =>
+        obtain ⟨grad, hess⟩ := gh
+        simp only
+        split_ifs with hgt
+        · exact ⟨by intro r hr; simp only [Sum.inl.injEq] at hr; subst hr
+                    exact finish_mono y0 _ _ i (habort _ s.mu s.nreduc), by intro _ hr; cases hr⟩
+        · have hS := search_mono M s.x grad hess (dBounds Q.bounds s.x Q.D) y Q.P.innerFuel s.mu s.nreduc
+            (s.calls ++ fdProbes s.x (fdSteps Q.P.eps Q.bounds s.x))
+          cases hsr : search Q s.x grad hess (dBounds Q.bounds s.x Q.D) y Q.P.innerFuel s.mu s.nreduc
+              (s.calls ++ fdProbes s.x (fdSteps Q.P.eps Q.bounds s.x)) with
+          | stopped st mu nr calls' =>
+            simp only
+            refine ⟨?_, ?_⟩
+            · intro r hr
+              split at hr
+              · simp only [Sum.inl.injEq] at hr; subst hr; exact abort_mono y0 _ _ i (habort _ mu nr)
+              · simp only [Sum.inl.injEq] at hr; subst hr; exact finish_mono y0 _ _ i (habort _ mu nr)
+            · intro s' hr
+              split at hr <;> cases hr
+          | accepted dx xnew rnew red mu nr calls' =>
+            rw [hsr] at hS
+            obtain ⟨hres, ynew, hvn, hle, _⟩ := hS _ _ _ _ _ _ _ rfl
+            obtain ⟨h1, h2, h3, h4⟩ := h
+            have hy := h3 y hv
+            have hnew : InvM Q y0 ⟨xnew, rnew, mu, nr, s.trace ++ [⟨s.x, y, red, mu⟩], calls'⟩ := by
+              refine ⟨hres, mem_append_single h2 hy.1, ?_, pairwise_snoc _ _ h4 hy.2⟩
+              intro yc hyc
+              simp only at hyc
+              rw [hvn] at hyc
+              simp only [Option.some.injEq] at hyc; subst hyc
+              refine ⟨le_trans hle hy.1, ?_⟩
+              exact mem_append_single (P := fun e => ynew ≤ e.objective)
+                (a := (⟨s.x, y, red, mu⟩ : IterLog ℝ)) (fun e he => le_trans hle (hy.2 e he)) hle
+            simp only
+            refine ⟨?_, ?_⟩
+            · intro r hr
+              split_ifs at hr
+              simp only [Sum.inl.injEq] at hr; subst hr; exact finish_mono y0 _ _ i hnew
+            · intro s' hr
+              split_ifs at hr
+              simp only [Sum.inr.injEq] at hr; subst hr; exact hnew
+
+theorem leastSquares_mono (M : DescentProblem Q) (x0 r0 : List ℝ) (y0 : ℝ)
+    (hr : Q.residual (clipStart Q.bounds x0) = some r0) (hy : Q.norm.value r0 = some y0) :
+    PostM Q y0 (leastSquares Q x0) := by
+  unfold leastSquares
+  simp only [hr]
+  refine iterate_induct Q (InvM Q y0) (PostM Q y0) ?_ ?_ ?_ _ _ _ ?_
+  · intro s i h; exact finish_mono y0 s _ i h
+  · intro i s r h hs; exact (iterStep_mono M y0 i s h).1 r hs
+  · intro i s s' h hs; exact (iterStep_mono M y0 i s h).2 s' hs
+  · refine ⟨hr, by simp, ?_, by simp⟩
+    intro yc hyc
+    simp only at hyc
+    rw [hy] at hyc
+    simp only [Option.some.injEq] at hyc
+    exact ⟨by rw [hyc], by simp⟩
+
+end mono
+
+/-! ### stationarity: the `G_TOL` test at tolerance 0 is the KKT condition of the box problem -/
+
+theorem foldl_add_nonneg (l : List ℝ) : ∀ init : ℝ, 0 ≤ init → (∀ t ∈ l, 0 ≤ t) → 0 ≤ l.foldl (· + ·) init := by
+  induction l with
+  | nil => intro init h _; simpa using h
+  | cons a l ih =>
+    intro init h hl
+    simp only [List.foldl_cons]
+    exact ih _ (add_nonneg h (hl a (by simp))) (fun t ht => hl t (by simp [ht]))
+
+theorem foldl_add_ge_init (l : List ℝ) : ∀ init : ℝ, (∀ t ∈ l, 0 ≤ t) → init ≤ l.foldl (· + ·) init := by
+  induction l with
+  | nil => intro init _; simp
+  | cons a l ih =>
+    intro init hl
+    simp only [List.foldl_cons]
+    have := ih (init + a) (fun t ht => hl t (by simp [ht]))
+    linarith [hl a (by simp)]
+
+theorem foldl_add_eq_zero (l : List ℝ) : ∀ init : ℝ, 0 ≤ init → (∀ t ∈ l, 0 ≤ t) →
+    l.foldl (· + ·) init = 0 → init = 0 ∧ ∀ t ∈ l, t = 0 := by
+  induction l with
+  | nil => intro init _ _ h; exact ⟨by simpa using h, by simp⟩
+  | cons a l ih =>
+    intro init h0 hl h
+    simp only [List.foldl_cons] at h
+    have ha := hl a (by simp)
+    obtain ⟨h1, h2⟩ := ih (init + a) (add_nonneg h0 ha) (fun t ht => hl t (by simp [ht])) h
+    have hi : init = 0 := by linarith
+    have ha0 : a = 0 := by linarith
+    exact ⟨hi, by intro t ht; rcases List.mem_cons.mp ht with rfl | ht; exact ha0; exact h2 t ht⟩
+
+theorem dot_nonneg (a b : List ℝ) (h : ∀ t ∈ List.zipWith (· * ·) a b, 0 ≤ t) : 0 ≤ dot a b := by
+  simp only [dot, zero_real]
+  exact foldl_add_nonneg _ 0 le_rfl h
+
+theorem dot_self_eq_zero (a : List ℝ) (h : dot a a = 0) : ∀ t ∈ a, t = 0 := by
+  simp only [dot, zero_real] at h
+  have hsq : ∀ t ∈ List.zipWith (· * ·) a a, 0 ≤ t := by
+    intro t ht
+    obtain ⟨i, hi, rfl⟩ := List.getElem_of_mem ht
+    simp only [List.getElem_zipWith]
+    exact mul_self_nonneg _
+  have := (foldl_add_eq_zero _ 0 le_rfl hsq h).2
+  intro t ht
+  obtain ⟨i, hi, rfl⟩ := List.getElem_of_mem ht
+  have hz := this (a[i] * a[i]) (by
+    have hi' : i < (List.zipWith (· * ·) a a).length := by simp [hi]
+    have : (List.zipWith (· * ·) a a)[i] = a[i] * a[i] := by simp [List.getElem_zipWith]
+    rw [← this]; exact List.getElem_mem hi')
+  exact mul_self_eq_zero.mp hz
+
+/-- `norm2 v ≤ 0` (the code's `g_norm <= gtol` with `gtol = 0`) means `v = 0` -/
+theorem norm2_le_zero (v : List ℝ) (h : norm2 v ≤ 0) : ∀ t ∈ v, t = 0 := by
+  simp only [norm2, real_sqrt] at h
+  have hnn : 0 ≤ dot v v := dot_nonneg v v (by
+    intro t ht
+    obtain ⟨i, hi, rfl⟩ := List.getElem_of_mem ht
+    simp only [List.getElem_zipWith]; exact mul_self_nonneg _)
+  have h0 : Real.sqrt (dot v v) = 0 := le_antisymm h (Real.sqrt_nonneg _)
+  exact dot_self_eq_zero v ((Real.sqrt_eq_zero hnn).mp h0)
+
+/-- an unclamped coordinate contributes its gradient entry to `grad_free` -/
+theorem gradFree_mem (lo hi x g : List ℝ) (i : Nat) (hl : i < lo.length) (hh : i < hi.length)
+    (hx : i < x.length) (hg : i < g.length) (hc : clamped1 lo[i] hi[i] x[i] g[i] = false) :
+    g[i] ∈ gradFree (some (lo, hi)) x g := by
+  simp only [gradFree, List.mem_map, List.mem_filter]
+  refine ⟨((lo[i], hi[i]), (x[i], g[i])), ⟨?_, by simp [hc]⟩, rfl⟩
+  have hi' : i < (List.zip (List.zip lo hi) (List.zip x g)).length := by simp; omega
+  have : (List.zip (List.zip lo hi) (List.zip x g))[i] = ((lo[i], hi[i]), (x[i], g[i])) := by
+    simp [List.getElem_zip]
+  rw [← this]; exact List.getElem_mem hi'
+
+/-- The KKT conditions read off the code's stopping test: every coordinate has zero scaled gradient, or sits
+    on its lower bound with positive gradient, or on its upper bound with negative gradient. -/
+theorem gtol_zero_kkt (lo hi x g : List ℝ) (h : norm2 (gradFree (some (lo, hi)) x g) ≤ 0)
+    (i : Nat) (hl : i < lo.length) (hh : i < hi.length) (hx : i < x.length) (hg : i < g.length) :
+    g[i] = 0 ∨ (x[i] = lo[i] ∧ 0 < g[i]) ∨ (x[i] = hi[i] ∧ g[i] < 0) := by
+  cases hc : clamped1 lo[i] hi[i] x[i] g[i] with
+  | false => exact Or.inl (norm2_le_zero _ h _ (gradFree_mem lo hi x g i hl hh hx hg hc))
+  | true =>
+    right
+    simp only [clamped1, real_beq, zero_real, real_lt_iff, Bool.or_eq_true, Bool.and_eq_true,
+      decide_eq_true_eq] at hc
+    exact hc
+
+/-- KKT ⇒ global minimum over the box for an objective that lies above its linearisation
+    `f x + Σ (g_i / D_i)(z_i − x_i)` (`g` is the gradient in the scaled coordinates, `D > 0`). -/
+theorem kkt_global_min (lo hi x g D : List ℝ) (f : List ℝ → ℝ)
+    (hlen : lo.length = hi.length) (hgl : g.length = lo.length) (hDl : D.length = lo.length)
+    (hD : ∀ i (h : i < D.length), 0 < D[i]) (hx : InBox lo hi x)
+    (hstop : norm2 (gradFree (some (lo, hi)) x g) ≤ 0)
+    (hconv : ∀ z, InBox lo hi z →
+      f x + dot (List.zipWith (· / ·) g D) (List.zipWith (· - ·) z x) ≤ f z) :
+    ∀ z, InBox lo hi z → f x ≤ f z := by
+  intro z hz
+  have hdot : 0 ≤ dot (List.zipWith (· / ·) g D) (List.zipWith (· - ·) z x) := by
+    apply dot_nonneg
+    intro t ht
+    obtain ⟨i, hi', rfl⟩ := List.getElem_of_mem ht
+    simp only [List.length_zipWith] at hi'
+    have hil : i < lo.length := by omega
+    have hih : i < hi.length := by omega
+    have hix : i < x.length := by omega
+    have hiz : i < z.length := by omega
+    have hig : i < g.length := by omega
+    have hiD : i < D.length := by omega
+    simp only [List.getElem_zipWith]
+    have hk := gtol_zero_kkt lo hi x g hstop i hil hih hix hig
+    have hbz := hz.2 i hil hih hiz
+    have hDi := hD i hiD
+    rcases hk with h0 | ⟨hxl, hgp⟩ | ⟨hxh, hgn⟩
+    · rw [h0]; simp
+    · apply mul_nonneg (div_nonneg hgp.le hDi.le); rw [hxl]; linarith [hbz.1]
+    · have : 0 ≤ (-g[i] / D[i]) * (x[i] - z[i]) := by
+        apply mul_nonneg (div_nonneg (by linarith) hDi.le); rw [hxh]; linarith [hbz.2]
+      have e : g[i] / D[i] * (z[i] - x[i]) = (-g[i] / D[i]) * (x[i] - z[i]) := by ring
+      rw [e]; exact this
+  linarith [hconv z hz]
+
+/-! ### what a `G_TOL` stop of the run means -/
+
+/-- `grad` is the (scaled) gradient that the code computes at `x` with residual `r`: finite-difference
+    Jacobian, `proj = jac * D.T`, then the `Norm` object's `grad_hess`. -/
+def GradAt (Q : Problem ℝ) (x r grad : List ℝ) : Prop :=
+  ∃ rhs hess, (fdProbes x (fdSteps Q.P.eps Q.bounds x)).mapM Q.residual = some rhs ∧
+    (projMat r rhs (fdSteps Q.P.eps Q.bounds x) Q.D).bind (Q.norm.gradHess r) = some (grad, hess)
+
+def PostG (Q : Problem ℝ) (r : Result ℝ) : Prop :=
+  r.status = .gTol → ∃ grad, GradAt Q r.x r.r grad ∧ norm2 (gradFree Q.bounds r.x grad) ≤ Q.P.gtol
+
+theorem finish_status {Q : Problem ℝ} (s : State ℝ) (st : Status) (i : Nat) :
+    ((finish Q s st i).status = st ∨ ∃ w, (finish Q s st i).status = .aborted w) ∧
+    (finish Q s st i).x = s.x ∧ (finish Q s st i).r = s.r := by
+  unfold finish
+  split
+  · exact ⟨Or.inr ⟨_, rfl⟩, rfl, rfl⟩
+  · exact ⟨Or.inl rfl, rfl, rfl⟩
+
+theorem finish_not_gTol {Q : Problem ℝ} (s : State ℝ) (st : Status) (i : Nat) (h : st ≠ .gTol) :
+    PostG Q (finish Q s st i) := by
+  intro hg
+  rcases (finish_status (Q := Q) s st i).1 with h1 | ⟨w, h1⟩
+  · rw [h1] at hg; exact absurd hg h
+  · rw [h1] at hg; cases hg
+
+theorem searchStep_not_gTol {Q : Problem ℝ} (x grad : List ℝ) (hess : Mat ℝ) (db : Option (List ℝ × List ℝ))
+    (y mu : ℝ) (nr : Nat) (calls : List (List ℝ)) (r : SearchResult ℝ)
+    (h : searchStep Q x grad hess db y mu nr calls = .inl r) :
+    ∀ st mu' nr' calls', r = .stopped st mu' nr' calls' → st ≠ .gTol := by
+  have fin : ∀ (st0 : Status) (m : ℝ) (n : Nat) (c : List (List ℝ)), st0 ≠ .gTol →
+      Sum.inl (β := ℝ × Nat × List (Vec ℝ)) (SearchResult.stopped st0 m n c) = .inl r →
+      ∀ st mu' nr' calls', r = .stopped st mu' nr' calls' → st ≠ .gTol := by
+    intro st0 m n c hne h st mu' nr' calls' hr
+    simp only [Sum.inl.injEq] at h; subst h
+    simp only [SearchResult.stopped.injEq] at hr
+    obtain ⟨rfl, _⟩ := hr; exact hne
+  unfold searchStep at h
+  cases hq : Q.boxQP (regularize hess mu) grad db with
+  | none => rw [hq] at h; exact fin _ _ _ _ (by simp) h
+  | some res =>
+    rw [hq] at h
+    cases res with
+    | failed =>
+      simp only at h
+      split_ifs at h
+      exact fin _ _ _ _ (by simp) h
+    | ok dx =>
+      simp only at h
+      cases hr : Q.residual (candidate x Q.D dx) with
+      | none => rw [hr] at h; exact fin _ _ _ _ (by simp) h
+      | some rnew =>
+        rw [hr] at h
+        simp only at h
+        cases hv : Q.norm.value rnew with
+        | none => rw [hv] at h; exact fin _ _ _ _ (by simp) h
+        | some ynew =>
+          rw [hv] at h
+          simp only at h
+          split_ifs at h with h1 h2
+          · exact fin _ _ _ _ (by simp) h
+          · simp only [Sum.inl.injEq] at h; subst h
+            intro _ _ _ _ hr; cases hr
+
+theorem search_not_gTol {Q : Problem ℝ} (x grad : List ℝ) (hess : Mat ℝ) (db : Option (List ℝ × List ℝ))
+    (y : ℝ) (fuel : Nat) (mu : ℝ) (nr : Nat) (calls : List (List ℝ)) :
+    ∀ st mu' nr' calls', search Q x grad hess db y fuel mu nr calls = .stopped st mu' nr' calls' → st ≠ .gTol := by
+  refine search_induct Q x grad hess db y (fun _ _ _ => True)
+    (fun r => ∀ st mu' nr' calls', r = .stopped st mu' nr' calls' → st ≠ .gTol) ?_ ?_ ?_ fuel mu nr calls trivial
+  · intro _ _ _ _ st _ _ _ h
+    simp only [SearchResult.stopped.injEq] at h
+    obtain ⟨rfl, _⟩ := h; simp
+  · intro mu nr calls r _ hs; exact searchStep_not_gTol x grad hess db y mu nr calls r hs
+  · intro _ _ _ _ _ _ _ _; trivial
+
+theorem iterStep_gTol {Q : Problem ℝ} (i : Nat) (s : State ℝ) (r : Result ℝ) (h : iterStep Q i s = .inl r) :
+    PostG Q r := by
+  unfold iterStep at h
+  cases hv : Q.norm.value s.r with
+  | none => rw [hv] at h; simp only [Sum.inl.injEq] at h; subst h; intro hg; cases hg
+  | some y =>
+    rw [hv] at h
+    simp only at h
+    cases hm : List.mapM Q.residual (fdProbes s.x (fdSteps Q.P.eps Q.bounds s.x)) with
+    | none => rw [hm] at h; simp only [Sum.inl.injEq] at h; subst h; intro hg; cases hg
+    | some rhs =>
+      rw [hm] at h
+      simp only at h
+      cases hg : (projMat s.r rhs (fdSteps Q.P.eps Q.bounds s.x) Q.D).bind (Q.norm.gradHess s.r) with
+      | none => rw [hg] at h; simp only [Sum.inl.injEq] at h; subst h; intro hg; cases hg
+      | some gh =>
+        obtain ⟨grad, hess⟩ := gh
+        rw [hg] at h
+        simp only at h
+        split_ifs at h with hgt
+        · simp only [Sum.inl.injEq] at h; subst h
+          intro _
+          have hf := finish_status (Q := Q) { s with calls := s.calls ++ fdProbes s.x (fdSteps Q.P.eps Q.bounds s.x) } .gTol i
+          rw [hf.2.1, hf.2.2]
+          exact ⟨grad, ⟨rhs, hess, hm, hg⟩, hgt⟩
+        · cases hsr : search Q s.x grad hess (dBounds Q.bounds s.x Q.D) y Q.P.innerFuel s.mu s.nreduc
+              (s.calls ++ fdProbes s.x (fdSteps Q.P.eps Q.bounds s.x)) with
+          | stopped st mu nr calls' =>
+            rw [hsr] at h
+            have hne := search_not_gTol _ _ _ _ _ _ _ _ _ st mu nr calls' hsr
+            simp only at h
+            split at h
+            · simp only [Sum.inl.injEq] at h; subst h; intro hg; cases hg
+            · simp only [Sum.inl.injEq] at h; subst h; exact finish_not_gTol _ _ _ hne
+          | accepted dx xnew rnew red mu nr calls' =>
+            rw [hsr] at h
+            simp only at h
+            split_ifs at h
+            simp only [Sum.inl.injEq] at h; subst h
+            exact finish_not_gTol _ _ _ (by simp)
+
+theorem leastSquares_gTol (Q : Problem ℝ) (x0 : List ℝ) : PostG Q (leastSquares Q x0) := by
+  unfold leastSquares
+  simp only
+  cases hr : Q.residual (clipStart Q.bounds x0) with
+  | none => intro hg; cases hg
+  | some r =>
+    simp only
+    refine iterate_induct Q (fun _ => True) (PostG Q) ?_ ?_ ?_ _ _ _ trivial
+    · intro s i _; exact finish_not_gTol _ _ _ (by simp)
+    · intro i s r _ hs; exact iterStep_gTol i s r hs
+    · intro _ _ _ _ _; trivial
+
 end MjProof.LeastSquares
